@@ -5,9 +5,13 @@ package simtime
 
 import (
 	"time"
+	"unsafe"
 
 	"verif/sim/simrt"
 )
+
+func chanAddr(ch chan time.Time) uintptr          { return uintptr(*(*unsafe.Pointer)(unsafe.Pointer(&ch))) }
+func unsafePtr(p *simrt.TimerSpec) unsafe.Pointer { return unsafe.Pointer(p) }
 
 func Now() time.Time {
 	ns, _, ok := simrt.Ask(simrt.ReqClock, simrt.OpClock, 0, 0, nil)
@@ -24,4 +28,135 @@ func Sleep(d time.Duration) {
 	if _, _, ok := simrt.Ask(simrt.ReqSleep, simrt.OpClock, 0, int64(d), nil); !ok {
 		time.Sleep(d)
 	}
+}
+
+func init() {
+	simrt.TimeValue = func(ns int64) any { return time.Unix(0, ns) }
+}
+
+// Timer mirrors time.Timer over the simulated clock.
+type Timer struct {
+	C    <-chan time.Time
+	spec *simrt.TimerSpec
+	real *time.Timer // unmanaged processes only
+}
+
+//go:norace
+func newTimer(d time.Duration, period time.Duration, f func()) *Timer {
+	t := &Timer{}
+	var ch chan time.Time
+	if f == nil {
+		ch = simrt.ChanMake(make(chan time.Time, 1))
+		t.C = ch
+	}
+	t.spec = &simrt.TimerSpec{Delay: int64(d), Period: int64(period), Fn: f}
+	if ch != nil {
+		t.spec.Ch = chanAddr(ch)
+		t.spec.ChCap = 1
+	}
+	if f != nil {
+		// timer creation happens-before the function runs
+		inner := f
+		spec := t.spec
+		simrt.RaceReleaseMerge(unsafePtr(spec))
+		t.spec.Fn = func() { simrt.RaceAcquire(unsafePtr(spec)); inner() }
+	}
+	if _, _, ok := simrt.Ask(simrt.ReqTimerNew, simrt.OpClock, 0, int64(d), t.spec); !ok {
+		simrt.NewTimerOutsideRun(t.spec)
+	}
+	return t
+}
+
+//go:norace
+func NewTimer(d time.Duration) *Timer {
+	if simrt.Unmanaged() {
+		rt := time.NewTimer(d)
+		return &Timer{C: rt.C, real: rt}
+	}
+	return newTimer(d, 0, nil)
+}
+
+//go:norace
+func AfterFunc(d time.Duration, f func()) *Timer {
+	if simrt.Unmanaged() {
+		return &Timer{real: time.AfterFunc(d, f)}
+	}
+	return newTimer(d, 0, f)
+}
+
+//go:norace
+func After(d time.Duration) <-chan time.Time { return NewTimer(d).C }
+
+//go:norace
+func (t *Timer) Stop() bool {
+	if t.real != nil {
+		return t.real.Stop()
+	}
+	n, _, ok := simrt.Ask(simrt.ReqTimerStop, simrt.OpClock, 0, t.spec.ID, nil)
+	if !ok {
+		was := t.spec.Active
+		t.spec.Active = false
+		return was
+	}
+	return n == 1
+}
+
+//go:norace
+func (t *Timer) Reset(d time.Duration) bool {
+	if t.real != nil {
+		return t.real.Reset(d)
+	}
+	n, _, ok := simrt.Ask(simrt.ReqTimerReset, simrt.OpClock, uintptr(d), t.spec.ID, nil)
+	if !ok {
+		t.spec.Delay = int64(d)
+		return false
+	}
+	return n == 1
+}
+
+// Ticker mirrors time.Ticker.
+type Ticker struct {
+	C    <-chan time.Time
+	t    *Timer
+	real *time.Ticker
+}
+
+//go:norace
+func NewTicker(d time.Duration) *Ticker {
+	if d <= 0 {
+		panic("non-positive interval for NewTicker")
+	}
+	if simrt.Unmanaged() {
+		rt := time.NewTicker(d)
+		return &Ticker{C: rt.C, real: rt}
+	}
+	t := newTimer(d, d, nil)
+	return &Ticker{C: t.C, t: t}
+}
+
+//go:norace
+func (k *Ticker) Stop() {
+	if k.real != nil {
+		k.real.Stop()
+		return
+	}
+	k.t.Stop()
+}
+
+//go:norace
+func (k *Ticker) Reset(d time.Duration) {
+	if k.real != nil {
+		k.real.Reset(d)
+		return
+	}
+	k.t.spec.Period = int64(d)
+	k.t.Reset(d)
+}
+
+//go:norace
+func Tick(d time.Duration) <-chan time.Time {
+	if d <= 0 {
+		return nil
+	}
+	return NewTicker(d).C
 }
